@@ -137,6 +137,7 @@ func bufprop(r *simkit.Run, prop string) {
 		}
 		ex.chunked = rapid.Bool().Draw(rt, "chunked")
 		ex.unframed = ex.chunked && rapid.IntRange(0, 3).Draw(rt, "undeclared-length-not-chunked") == 0
+		ex.writerKind = rapid.SampledFrom([]string{"", "", "", "hijack-refused", "plain"}).Draw(rt, "client-writer")
 		ex.breakAfter = -1
 		if rapid.IntRange(0, 5).Draw(rt, "client-goes-away") == 0 {
 			ex.breakAfter = rapid.SampledFrom([]int{0, 1, 7, 100, 600, 5000}).Draw(rt, "after-bytes")
@@ -183,6 +184,9 @@ func bufprop(r *simkit.Run, prop string) {
 			}
 			sc.readHow = rapid.IntRange(0, 2).Draw(rt, "read-how")
 			sc.closeBody = rapid.Bool().Draw(rt, "close-body")
+			if ex.writerKind != "" {
+				sc.tryHijack = rapid.Bool().Draw(rt, "try-hijack")
+			}
 			sc.mutate = rapid.Bool().Draw(rt, "mutate")
 			sc.early = rapid.IntRange(0, 5).Draw(rt, "early-hints") == 0
 			sc.abort = rapid.IntRange(0, 9).Draw(rt, "handler-aborts") == 0
